@@ -65,6 +65,12 @@ def cases(tier):
                     chains.append(list(ch))
         for i in range(0, len(chains), 8):
             out.append({"name": "%s/%d" % (base, i), "base": base, "chains": chains[i:i + 8]})
+        # two graph epochs: a view left over from a back-propagated graph becomes the base of new views
+        pairs = [[a, b2] for a in ops for b2 in ops if _chain_ok(shape, [a, b2], base in F_ORDERED)]
+        if quick:
+            pairs = pairs[::2] if base in ("flat6", "mat23") else pairs[::5]
+        for i in range(0, len(pairs), 12):
+            out.append({"name": "%s/epoch2/%d" % (base, i), "base": base, "epoch2": pairs[i:i + 12]})
     return out
 
 
@@ -90,6 +96,8 @@ def run_case(spec, tier):
     engine = eng_mod.Engine(skip_ties=True)
     engine.reset_fn = lib.reset_state
     nprog = 0
+    if "epoch2" in spec:
+        return _run_epoch2_case(spec, mg, engine, shape, res)
     for chain in spec["chains"]:
         for cons in consumer_sets(len(chain), quick):
           for kinds in ([("mul",) * len(cons)] + ([tuple("lin" if j == 0 else "mul" for j in range(len(cons))),
@@ -201,6 +209,117 @@ def _run(mg, engine, shape, chain, lines, second, res, fo=False):
                     if vg.shape != exp.shape or prob.differ_any(list(zip(terms_of(vg), terms_of(exp))), 10000).verdict != "unsat":
                         return "after a second pass on the base only, v%d.grad is neither None nor the view of the new gradient" % (i + 1)
     return None
+
+
+E2_READERS = [["w"], ["w", "v"], ["v", "w"], ["w", "w2"]]
+
+
+def _run_epoch2_case(spec, mg, engine, shape, res):
+    fo = spec["base"] in F_ORDERED
+    nprog = 0
+    for op1, op2 in spec["epoch2"]:
+        for readers in E2_READERS:
+            nprog += 1
+            lines1 = ["v = " + VIEW_OPS[op1][0].format(s="b"), "L = (v * v * q[0]).sum()"]
+            lines2 = ["w = " + VIEW_OPS[op2][0].format(s="v")] + (["w2 = w[...]"] if "w2" in readers else [])
+            lines2 += ["r%d = (%s * %s * q[%d]).sum()" % (j, c, c, j + 1) for j, c in enumerate(readers)]
+            lines2 += ["L2 = " + " + ".join("r%d" % j for j in range(len(readers)))]
+            bad = _run_epoch2(mg, engine, shape, op2, lines1, lines2, "w2" in readers, res, fo)
+            if bad:
+                rp = _replay_epoch2(spec, shape, op2, lines1, lines2, "w2" in readers, nprog, fo)
+                if rp:
+                    res["status"] = common.VIOLATION
+                    res["violations"].append({"signature": "view-grad-epoch2:%s" % bad[:40], "replay": rp,
+                                              "summary": "base %s, `%s; L.backward(); %s; L2.backward()`: %s" % (shape, "; ".join(lines1), "; ".join(lines2), bad)})
+                else:
+                    res["status"] = common.INCONCLUSIVE
+                    res["notes"].append("did not reproduce: %s | %s :: %s" % ("; ".join(lines1), "; ".join(lines2), bad))
+    res["programs"] = nprog
+    res["sample"] = {"base": list(shape), "epoch1": lines1, "epoch2": lines2}
+    return res
+
+
+def _run_epoch2(mg, engine, shape, op2, lines1, lines2, has_w2, res, fo):
+    def body():
+        b0 = symarr("b", shape[::-1]).T if fo else symarr("b", shape)
+        env = {"mg": mg, "np": np, "b": mg.Tensor(b0), "q": [symarr("q%d" % i, ()) for i in range(4)]}
+        for ln in lines1:
+            exec(ln, env)
+        env["L"].backward()
+        for ln in lines2:
+            exec(ln, env)
+        env["L2"].backward()
+        return env
+
+    for p in engine.explore(body, max_paths=20, max_seconds=60):
+        res["paths"] += 1
+        if p.exc is not None:
+            return "raised %s: %s" % (type(p.exc).__name__, p.exc)
+        env = p.out
+        v, w = env["v"], env["w"]
+        # in the second epoch v is the tensor the new views were taken from; its graph of the first epoch is gone
+        if v.grad is None:
+            return "v (base of the second epoch) has no gradient"
+        prob = query.Problem(list(p.pc) + list(p.dom))
+        g = v.grad
+        exp = VIEW_OPS[op2][1](g)
+        for name, t in [("w", w)] + ([("w2", env["w2"])] if has_w2 else []):
+            tg = t.grad
+            if tg is None:
+                return "%s.grad is None although the tensor it views has a gradient" % name
+            if tg.shape != exp.shape:
+                return "%s.grad has shape %s, the view of v.grad has %s" % (name, tg.shape, exp.shape)
+            r = prob.differ_any(list(zip(terms_of(tg), terms_of(exp))), 10000)
+            res[r.verdict] += 1
+            if r.verdict == "sat":
+                return "%s.grad differs from its view operation applied to v.grad" % name
+            if r.verdict == "unknown":
+                res["status"] = common.INCONCLUSIVE
+            if not np.shares_memory(tg, g):
+                return "%s.grad does not share memory with v.grad" % name
+        fresh = symarr("f", g.shape)
+        g[...] = fresh
+        if w.grad is None or [t.uid for t in terms_of(w.grad)] != [t.uid for t in terms_of(VIEW_OPS[op2][1](g))]:
+            return "writing into v.grad is not visible through w.grad"
+    return None
+
+
+def _replay_epoch2(spec, shape, op2, lines1, lines2, has_w2, k, fo):
+    src = '''import sys
+import numpy as np
+import mygrad as mg
+OPS = {
+ "slice": lambda a: a[1:], "rev": lambda a: a[::-1], "step": lambda a: a[..., ::2], "int": lambda a: a[0], "newaxis": lambda a: a[..., None],
+ "T": lambda a: a.T, "ravel": lambda a: a.reshape(-1), "reshape32": lambda a: a.reshape(3, 2), "swap": lambda a: np.swapaxes(a, 0, -1),
+ "diag": lambda a: np.einsum("ii->i", a), "col": lambda a: a[:, 1], "squeeze": lambda a: np.squeeze(a[:1], axis=0),
+ "moveaxis": lambda a: np.moveaxis(a, 0, -1), "expand": lambda a: np.expand_dims(a, 0), "ellipsis": lambda a: a[...]}
+OP2 = %r; L1 = %r; L2 = %r; HAS_W2 = %r
+rng = np.random.RandomState(3)
+env = {"mg": mg, "np": np, "b": mg.Tensor((rng.rand(*%r[::-1]) + 0.5).T if %r else rng.rand(*%r) + 0.5), "q": [np.array(1.5), np.array(2.5), np.array(3.5), np.array(0.75)]}
+bad = []
+try:
+    for ln in L1: exec(ln, env)
+    env["L"].backward()
+    for ln in L2: exec(ln, env)
+    env["L2"].backward()
+    v, w = env["v"], env["w"]
+    if v.grad is None: bad.append("v has no gradient")
+    else:
+        exp = OPS[OP2](v.grad)
+        for n in ["w"] + (["w2"] if HAS_W2 else []):
+            t = env[n]
+            if t.grad is None or t.grad.shape != exp.shape or not np.allclose(t.grad, exp) or not np.shares_memory(t.grad, v.grad):
+                bad.append(n + ".grad is not the sharing view of v.grad")
+        v.grad[...] = rng.rand(*v.grad.shape)
+        if w.grad is None or not np.array_equal(w.grad, OPS[OP2](v.grad)): bad.append("write-through w")
+except Exception as e:
+    bad.append("raised %%s: %%s" %% (type(e).__name__, e))
+print(bad)
+print('REPRODUCED' if bad else 'NOT-REPRODUCED'); sys.exit(1 if bad else 0)
+''' % (op2, list(lines1), list(lines2), bool(has_w2), tuple(shape), bool(fo), tuple(shape))
+    path = common.write_replay(PROP, gradcase._safe("%s_%d" % (spec["name"], k)), src)
+    ok, out = common.run_replay(path)
+    return path if ok else None
 
 
 def _replay(spec, shape, chain, lines, second, k, fo=False):
